@@ -31,6 +31,14 @@ FRAG_UNITS = {
     "frag_phys": "pub fn wire_cal(_v: i16, _b: i16, _g: f64) -> f64 { unimplemented!() }\n"
                  "pub fn pad_cal(_v: i16, _b: i16, _g: f64) -> f64 { unimplemented!() }\n"
                  "pub fn a_entry(_i: usize, _j: usize) -> f64 { unimplemented!() }\n",
+    "frag_leaves": "pub fn adc_sum64(_w: &[i16]) -> i32 { unimplemented!() }\n"
+                   "pub fn adc_concat(_a: [u8; 4], _b: [u8; 4]) -> Vec<u8> { unimplemented!() }\n"
+                   "pub fn adc_wave(_s: &[u8], _n: usize) -> Vec<i16> { unimplemented!() }\n"
+                   "pub fn pwb_mask_sent(_s: &[u8]) -> u128 { unimplemented!() }\n"
+                   "pub fn pwb_mask_threshold(_s: &[u8]) -> u128 { unimplemented!() }\n"
+                   "pub fn pwb_ids(_c: Vec<u16>) -> Vec<ChannelId> { unimplemented!() }\n"
+                   "pub fn pwb_samples(_d: &[u8]) -> Vec<i16> { unimplemented!() }\n"
+                   "pub fn chunk_any_nonzero(_p: &Vec<u8>) -> bool { unimplemented!() }\n",
     "frag_cb": "pub fn split_row(_c: &[FifoEntry]) -> (Option<WrapAroundMarker>, &[FifoEntry]) { unimplemented!() }\n",
 }
 
@@ -107,6 +115,12 @@ harness("cal_pad_complete", "pad calibration closure of MainEvent::try_from_bank
                              "baseline": int.from_bytes(bytes(vals[1]), "little", signed=True)})
 harness("a_entry_complete", "induction-matrix entry closure of a_matrix (extracted expression)", True,
         bound="all i, j < 256", frag="frag_phys")
+harness("leaf_adc_sum_concat", "assumed leaves lift_sum / lift_concat of unit adc (64-sample sum, [msw,lsw].concat())", True,
+        bound="all [i16;64] / all [u8;4] pairs", frag="frag_leaves", timeout=900)
+harness("leaf_pwb_masks", "assumed leaves lift_mask_sent / lift_mask_threshold of unit pwb (copy_from_slice + u128::from_le_bytes)", True,
+        bound="all 44-byte headers", frag="frag_leaves")
+harness("leaf_small_vectors", "assumed leaves lift_waveform, lift_ids_*, lift_samples, lift_any_nonzero on short inputs", False,
+        bound="<= 3 elements / <= 6 bytes", frag="frag_leaves", timeout=900)
 harness("split_row_marker_chunks", "row split of chronobox-timestamps on chunks closed by a marker", False,
         bound="chunks of <= 3 entries", timeout=1500, frag="frag_cb")
 harness("split_row_keeps_all_timestamps", "row split of chronobox-timestamps: every timestamp of a chunk gets a row", False,
